@@ -437,3 +437,30 @@ Proof.
   intros h. unfold blind. rewrite <- (map_id h) at 2. apply map_ext. intros nd. unfold blind_node.
   destruct (n_task nd); reflexivity.
 Qed.
+
+(* ------------------------------------------------------------------ a copied mark hides the parameters (round 6) *)
+(* slow = Slow().submit(); quick = Quick().submit(); consumer = Consumer(slow=slow); consumer.copy_dependencies(quick):
+   the consumer carries the mark of quick when it is submitted; the unchanged walk stops there *)
+Definition h_copied : heap :=
+  [ mk [VAtom] [] [] (Some 0) (Some 0) (Some 0);      (* 0: slow, submitted *)
+    mk [VAtom] [] [] (Some 1) (Some 1) (Some 1);      (* 1: quick, submitted *)
+    mk [VRef 0] [] [] (Some 1) None None ].           (* 2: Consumer(slow=slow) with the mark of quick copied *)
+
+Theorem copied_mark_hides_refuted : exists h cp root fuel,
+  n_sub (get h root) = None /\
+  collect h fuel root [] = Some [1] /\
+  reachv (uncopy cp h) (VRef root) 0 /\
+  collect (uncopy cp h) fuel root [] = Some [0; 1].
+Proof.
+  exists h_copied, [2], 2, 6. split; [reflexivity|]. split; [reflexivity|]. split; [|reflexivity].
+  apply r_field with (v := VRef 0); simpl; auto. apply r_task; reflexivity.
+Qed.
+
+(* without copied marks nothing changes *)
+Lemma uncopy_nil_get : forall h n, get (uncopy [] h) n = get h n.
+Proof.
+  intros h n. unfold uncopy, get. simpl. rewrite app_nil_r.
+  assert (G : forall (l : list node) a, map (fun p => uncopy_node [] (length h) (fst p) (snd p)) (combine (seq a (length l)) l) = l).
+  { induction l as [|x r IH]; intros a; simpl; [reflexivity|]. rewrite IH. reflexivity. }
+  rewrite G. reflexivity.
+Qed.
